@@ -337,7 +337,7 @@ func cmdCheck(args []string) int {
 		}
 		hs = append(hs, h)
 	}
-	if len(hs) == 0 {
+	if len(hs) == 0 && !(id == "C17" && onlySet["c17_race_bmc"]) {
 		fmt.Printf("INCONCLUSIVE no harness registered for %s\n", id)
 		return 3
 	}
@@ -462,6 +462,14 @@ func cmdCheck(args []string) int {
 		}
 		evs = append(evs, ev)
 	}
+	if id == "C17" && (len(onlySet) == 0 || onlySet["c17_race_bmc"]) {
+		// second sentence of the property: data races on the handler's shared fields (skeleton BMC, racebmc.go)
+		rr := checkRaces(id, *tier)
+		violations += rr.Violations
+		inconclusive = append(inconclusive, rr.Inconclusive...)
+		extraCoverage = map[string]interface{}{"race_bmc": rr.Coverage}
+		extraAssumptions = rr.Assumptions
+	}
 	wall := time.Since(t0).Seconds()
 	writeEvidence(id, *tier, seed, evs, replays, loadSec, inconclusive, wall, violations)
 	for _, inc := range inconclusive {
@@ -497,6 +505,10 @@ func repoFuncs(res *symex.HarnessResult) map[string]string {
 	}
 	return out
 }
+
+// filled by checks that add a second engine's results to the evidence of a property (C17: race BMC)
+var extraCoverage map[string]interface{}
+var extraAssumptions []string
 
 func writeEvidence(id, tier string, seed int, evs []harnessEvidence, replays int, loadSec float64, inconclusive []string, wall float64, violations int) {
 	states, trans, obl, dis, queries := 0, 0, 0, 0, 0
@@ -554,8 +566,23 @@ func writeEvidence(id, tier string, seed int, evs []harnessEvidence, replays int
 		},
 		"assumptions": assumptions, "wall_s": round2(wall), "violations": violations,
 	}
+	for k, v := range extraCoverage {
+		ev["coverage"].(map[string]interface{})[k] = v
+	}
+	if len(extraAssumptions) > 0 {
+		ev["assumptions"] = append(assumptions, extraAssumptions...)
+	}
 	js, _ := json.MarshalIndent(ev, "", " ")
-	os.MkdirAll(filepath.Join(verifRoot, "evidence"), 0o755)
-	os.WriteFile(filepath.Join(verifRoot, "evidence", id+".json"), js, 0o644)
+	os.MkdirAll(evidenceDir(), 0o755)
+	os.WriteFile(filepath.Join(evidenceDir(), id+".json"), js, 0o644)
 }
 
+
+// evidenceDir: /verif/evidence; the development override VERIF_EVIDENCE_DIR keeps runs against scratch worktrees
+// (seeded changes) from overwriting the evidence of the real tree.
+func evidenceDir() string {
+	if d := os.Getenv("VERIF_EVIDENCE_DIR"); d != "" {
+		return d
+	}
+	return filepath.Join(verifRoot, "evidence")
+}
